@@ -99,14 +99,17 @@ ringvars == <<cnt, order, ring, oi, k, next, step, cursor, picks, npicks>>
 Vec(t) == [i \in 1..Len(t) |-> t[i].k]
 
 \* route weight [<svc>] <src> weight <w> [tags "..."]: w is the share of ALL selected targets
-\* together; selecting nothing changes nothing
+\* together; "w <= 0 means no fixed weighting" (the selected targets become dynamic again);
+\* selecting nothing changes nothing.  The command replaces whatever fixed weight the selected
+\* targets had: the split after a script is the split of the LAST configuration.
 Selected(t, s, sel) == {i \in 1..Len(t) : (s = "" \/ t[i].svc = s) /\ sel \subseteq t[i].tags}
+Share(w, n) == IF w <= 0 THEN 0 ELSE w \div n
 Weigh(t, s, sel, w) ==
     LET m == Selected(t, s, sel) IN
     IF m = {} THEN t
-    ELSE [i \in 1..Len(t) |-> IF i \in m THEN [t[i] EXCEPT !.k = w \div Cardinality(m)] ELSE t[i]]
+    ELSE [i \in 1..Len(t) |-> IF i \in m THEN [t[i] EXCEPT !.k = Share(w, Cardinality(m))] ELSE t[i]]
 WeighCmds == {c \in [svc : Svc \cup {""}, sel : SelTags, w : WC] : c.svc # "" \/ c.sel # {}}
-ASSUME \A w \in WC, n \in 1..MaxTargets : w % n = 0     \* shares divide exactly
+ASSUME \A w \in WC, n \in 1..MaxTargets : w > 0 => w % n = 0     \* shares divide exactly
 
 Targets == [svc : Svc, tags : TagSets, k : WU]
 InitTargets == UNION {[1..n -> Targets] : n \in 1..MaxTargets}
@@ -209,7 +212,8 @@ WeighInv == \A c \in WeighCmds :
               LET t2 == Weigh(tg, c.svc, c.sel, c.w)  m == Selected(tg, c.svc, c.sel) IN
               /\ Len(t2) = Len(tg)
               /\ \A i \in 1..Len(tg) : i \notin m => t2[i] = tg[i]
-              /\ \A i \in m : t2[i].svc = tg[i].svc /\ t2[i].tags = tg[i].tags /\ t2[i].k * Cardinality(m) = c.w
+              /\ \A i \in m : /\ t2[i].svc = tg[i].svc /\ t2[i].tags = tg[i].tags
+                             /\ IF c.w > 0 THEN t2[i].k * Cardinality(m) = c.w ELSE t2[i].k = 0
 \* slot counts respect the weights (on the model's small ring, exact arithmetic)
 SlotInv == pc # "cfg" /\ NFixed(Vec(tg)) > 0 =>
              \A i \in 1..Len(tg) :
